@@ -59,6 +59,14 @@ pub fn case_input(seed: u64, case: u64) -> (Problem, DefaultSettings<f64>) {
                         p.b[i] = 1e20;
                     }
                 }
+            } else if rng.bool(0.3) {
+                // "infinite" entries outside nonnegative cones are capped, never removed: the presolve line must
+                // not count them
+                for i in r {
+                    if rng.bool(0.3) {
+                        p.b[i] = *rng.choose(&[1e20, 1e30]);
+                    }
+                }
             }
         }
     }
